@@ -433,18 +433,21 @@ class FieldStorage:
         if has_read > max_read:
             raise BodySizeError('Max in-memory read limit exceed')
         src.seek(start)
-        headers_raw = src.read(sz).decode()
+        try:
+            headers_raw = src.read(sz).decode()
+        except UnicodeDecodeError:
+            raise MalformedHeadersError('Malformed headers, UTF-8 was expected')
         for header_raw in headers_raw.splitlines():
             header = self.parse_header(header_raw)
             self.headers[header.name] = header
             if header.name == 'Content-Disposition':
-                self.name = header.options['name']
+                self.name = header.options.get('name')
                 self.filename = header.options.get('filename')
             elif header.name == 'Content-Type':
                 self.ctype = header.value
 
         if self.name is None:
-            raise BodyParsingError(f'Noname field found while parsing multipart/formdata body: {header_raw}')
+            raise BodyParsingError(f'Noname field found while parsing multipart/formdata body: {headers_raw}')
 
         if self.filename is not None:
             self.file = BytesIOProxy(src, *data_section)
@@ -456,16 +459,22 @@ class FieldStorage:
                 if has_read > max_read:
                     raise BodySizeError('Max in-memory read limit exceed')
                 src.seek(start)
-                self.value = src.read(sz).decode()
+                try:
+                    self.value = src.read(sz).decode()
+                except UnicodeDecodeError:
+                    raise BodyParsingError(f'Field `{self.name}`: UTF-8 text was expected')
             else:
                 self.value = ''
         return has_read
 
     @classmethod
     def parse_header(cls, s: str):
-        htype, rest = s.split(':', 1)
+        htype, colon, rest = s.partition(':')
         opt_iter = cls._patt.finditer(rest)
-        hvalue = next(opt_iter).group(1).strip()
+        first = next(opt_iter, None)
+        if not colon or first is None:
+            raise MalformedHeadersError(f'Malformed header line: {s}')
+        hvalue = first.group(1).strip()
         dct = {}
         for it in opt_iter:
             k = it.group(1).strip()
